@@ -302,7 +302,7 @@ Lemma reach_keys :
   (forall l k, In k (reach_l l) -> In k (keys_l l)) /\
   (forall cs k, In k (reach_c cs) -> In k (keys_c cs)).
 Proof.
-  apply stmt_mutind; cbn [reach keys reach_l keys_l reach_c keys_c].
+  apply stmt_mutind; cbn [reach keys keys_l reach_c keys_c].
   - intros p e k [<-|[]]; left; reflexivity.
   - intros p k [<-|[]]; left; reflexivity.
   - intros p v i k [<-|[]]; left; reflexivity.
@@ -336,7 +336,7 @@ Proof.
       match type of H with In _ (if ?b then _ else _) => destruct b end; [|destruct H]. right. apply IHf. exact H.
   - intros k [].
   - intros s IHs r IHr k H. apply in_or_app. apply in_app_or in H. destruct H as [H|H]; [left; apply IHs; exact H | right].
-    destruct (cN (csem s [])); [apply IHr; exact H | destruct H].
+    destruct (cN (csem s [])); [apply IHr; exact H | apply IHr; apply hoist_in_reach; exact H].
   - intros k [].
   - intros cp d ft b IHb r IHr k H. right. apply in_or_app. apply in_app_or in H. destruct H as [H|H]; [left; apply IHb | right; apply IHr]; exact H.
 Qed.
@@ -542,6 +542,13 @@ Proof.
   - apply post_sc_live; try discriminate. unfold lv. rewrite end_child_exit_fn. exact Hl.
   - destruct (s_end (sc (block_end pb c))) as [[r t i| |]|]; discriminate.
   - exact Hf.
+Qed.
+
+(* ... its log, for ANY entry state (the body is analysed in a fresh scope) *)
+Lemma fn_H p pb body cb Rb : okBl body cb Rb -> forall x, flags_ok (g_lg (fn_likeG fx p pb body x)) Rb.
+Proof.
+  intros H x. unfold fn_likeG, block_endG. destruct (H (child_enter KFunction x) (lv_child_enter_fn x)) as [_ [_ Hf]].
+  destruct (body (child_enter KFunction x)) as [[c tops] lg]. cbn [g_lg l_lg fst snd] in *. exact Hf.
 Qed.
 
 Lemma arrow_A p pb body K : okAl body K -> okA (fun x => let '(y, r, lg) := fn_likeG fx p pb body x in (visit_lit y, r, lg)) K.
@@ -1000,19 +1007,25 @@ Proof.
   apply lkeys_in_app; [eapply lkeys_in_weak; [exact Hk1 | apply incl_appl, incl_refl] | eapply lkeys_in_weak; [exact Hk2 | apply incl_appr, incl_refl]].
 Qed.
 
-Lemma cons_B s hd tl c1 c2 R1 R2 K1 K2 :
+Lemma cons_B s hd tl c1 c2 R1 R2 H2 K1 K2 :
   okB hd c1 R1 -> okBl tl c2 R2 -> okA hd K1 -> okAl tl K2 ->
-  (forall k, In k K1 -> ~ In k R2) -> (forall k, In k K2 -> ~ In k R1) ->
-  okBl (consG s hd tl) (if cN c1 then cunion (cset_N false c1) c2 else c1) (R1 ++ (if cN c1 then R2 else [])).
+  (forall y, flags_ok (l_lg (tl y)) H2) ->
+  (forall k, In k K1 -> ~ In k R2) -> (forall k, In k K2 -> ~ In k R1) -> (forall k, In k K1 -> ~ In k H2) ->
+  okBl (consG s hd tl) (if cN c1 then cunion (cset_N false c1) c2 else c1) (R1 ++ (if cN c1 then R2 else H2)).
 Proof.
-  intros H1 H2 A1 A2 D12 D21 x Hl. unfold consG.
+  intros H1 H2' A1 A2 HH D12 D21 D1H x Hl. unfold consG.
   destruct (H1 x Hl) as [[P2 [P3 [P4 P5]]] [Hr Hf]]. destruct (A1 x) as [_ [_ Hk1]].
   destruct (hd x) as [[y1 r1] lg1]. cbn [g_st g_rs g_lg fst snd] in *.
-  destruct (A2 y1) as [Hm2 [_ Hk2]].
+  destruct (A2 y1) as [Hm2 [_ Hk2]]. pose proof (HH y1) as HHy.
+  (* the flags when the tail is not executed: only its hoisted function bodies are reachable *)
+  assert (Hdead : forall y2 tops lg2, tl y1 = (y2, tops, lg2) -> flags_ok (lg1 ++ lg2) (R1 ++ H2)).
+  { intros y2 tops lg2 Et. rewrite Et in Hk2, HHy. cbn [l_lg snd] in Hk2, HHy.
+    apply flags_ok_app_l; apply flags_ok_app_r;
+      [exact Hf | eapply flags_ok_disjoint; [exact Hk1 | exact D1H] | eapply flags_ok_disjoint; [exact Hk2 | exact D21] | exact HHy]. }
   destruct (lv_or_dd y1) as [Hl1 | Hd1].
   - (* the head leaves the scope live *)
-    destruct (H2 y1 Hl1) as [[Q2 [Q3 [Q4 Q5]]] [Qr Qf]].
-    destruct (tl y1) as [[y2 tops] lg2]. cbn [l_st l_tops l_lg fst snd] in *. destruct Hm2 as [M1 [M2 M3]].
+    destruct (H2' y1 Hl1) as [[Q2 [Q3 [Q4 Q5]]] [Qr Qf]].
+    destruct (tl y1) as [[y2 tops] lg2] eqn:Et. cbn [l_st l_tops l_lg fst snd] in *. destruct Hm2 as [M1 [M2 M3]].
     destruct (cN c1) eqn:En.
     + dsplit.
       * split; [|dsplit].
@@ -1030,17 +1043,17 @@ Proof.
         -- intros Hb. apply M2, P4. exact Hb.
         -- intros Hb. apply M3, P5. exact Hb.
       * intros _. exact En.
-      * rewrite app_nil_r. apply flags_ok_app_l; [exact Hf | eapply flags_ok_disjoint; [exact Hk2 | exact D21]].
+      * apply (Hdead y2 tops lg2 eq_refl).
   - (* the head leaves the scope dead: it cannot complete normally, the tail is not executed *)
     assert (En : cN c1 = false) by (apply P2; exact Hd1). rewrite En.
-    destruct (tl y1) as [[y2 tops] lg2]. cbn [l_st l_tops l_lg fst snd] in *. destruct Hm2 as [M1 [M2 M3]].
+    destruct (tl y1) as [[y2 tops] lg2] eqn:Et. cbn [l_st l_tops l_lg fst snd] in *. destruct Hm2 as [M1 [M2 M3]].
     dsplit.
     + split; [intros _; exact En | dsplit].
       * intros Hb. apply M1, P3. exact Hb.
       * intros Hb. apply M2, P4. exact Hb.
       * intros Hb. apply M3, P5. exact Hb.
     + intros _. exact En.
-    + rewrite app_nil_r. apply flags_ok_app_l; [exact Hf | eapply flags_ok_disjoint; [exact Hk2 | exact D21]].
+    + apply (Hdead y2 tops lg2 eq_refl).
 Qed.
 
 (* ------------------------------------------------------------------ *)
@@ -1556,6 +1569,16 @@ Definition inv_l (l : stmts) : Prop :=
 Definition inv_c (cs : cases) : Prop :=
   NoDup (keys_c cs) -> okAc (anG_cases fx cs) (keys_c cs) /\ okBc (anG_cases fx cs) (snd (csem_c cs)) (reach_c cs).
 
+(* hoisting: whatever the entry state, the statements logged as "visited dead" lie outside the bodies of the function
+   declarations that are directly in the list (these bodies are analysed in a fresh scope) *)
+Definition hoistS (s : stmt) : Prop := NoDup (keys s) -> forall x, flags_ok (g_lg (anG fx s x)) (hoist_s s).
+Definition hoistL (l : stmts) : Prop := NoDup (keys_l l) -> forall y, flags_ok (l_lg (anG_list fx l y)) (hoist_l l).
+Definition inv_s' (s : stmt) : Prop := inv_s s /\ hoistS s.
+Definition inv_l' (l : stmts) : Prop := inv_l l /\ hoistL l.
+
+Lemma hoistS_nil s : hoist_s s = [] -> hoistS s.
+Proof. intros E _ x. rewrite E. apply flags_ok_nil'. Qed.
+
 (* closures `fun a => orbG s (anG s a)` *)
 Lemma orb_inv s : inv_s s -> NoDup (keys s) ->
   okA (fun a => orbG s (anG fx s a)) (keys s) /\ forall ls, okB (fun a => orbG s (anG fx s a)) (csem s ls) (reach s).
@@ -1649,17 +1672,24 @@ Proof.
     exact HW.
 Qed.
 
-Theorem anG_inv : (forall s, inv_s s) /\ (forall l, inv_l l) /\ (forall cs, inv_c cs).
+Theorem anG_inv' : (forall s, inv_s' s) /\ (forall l, inv_l' l) /\ (forall cs, inv_c cs).
 Proof.
   apply stmt_mutind.
-  - (* SExpr *) intros p e Hn.
-    leaf_case (fun x => (visit_e e x, @None End, @nil gent)) (expr_B e); apply leaf_A; intros x; apply mono_visit_e.
-  - (* SEmpty *) intros p Hn.
-    leaf_case (fun x : st => (x, @None End, @nil gent)) empty_B; apply leaf_A; intros x; apply mono_refl.
-  - (* SVar *) intros p v i Hn.
+  - (* SExpr *) intros p e. split.
+    { intros Hn. 
+    leaf_case (fun x => (visit_e e x, @None End, @nil gent)) (expr_B e); apply leaf_A; intros x; apply mono_visit_e. }
+    { apply hoistS_nil. reflexivity. }
+  - (* SEmpty *) intros p. split.
+    { intros Hn. 
+    leaf_case (fun x : st => (x, @None End, @nil gent)) empty_B; apply leaf_A; intros x; apply mono_refl. }
+    { apply hoistS_nil. reflexivity. }
+  - (* SVar *) intros p v i. split.
+    { intros Hn. 
     leaf_case (fun x => (match i with Some e => visit_e e x | None => x end, @None End, @nil gent)) (var_B i);
-      apply leaf_A; intros x; (destruct i; [apply mono_visit_e | apply mono_refl]).
-  - (* SFnDecl *) intros p n pb b IHb Hn. cbn [keys] in Hn.
+      apply leaf_A; intros x; (destruct i; [apply mono_visit_e | apply mono_refl]). }
+    { apply hoistS_nil. reflexivity. }
+  - (* SFnDecl *) intros p n pb b [IHb HIHb]. split.
+    { intros Hn. cbn [keys] in Hn.
     apply NoDup_cons_inv in Hn. destruct Hn as [Hp Hn]. apply NoDup_cons_inv in Hn. destruct Hn as [Hpb Hn].
     destruct (IHb Hn) as [Ab Bb].
     split.
@@ -1670,8 +1700,14 @@ Proof.
     + intros ls. eapply okB_ext; [intros x; reflexivity|]. eapply (wrap_B _ (fn_likeG fx p pb (anG_list fx b)) (keys_l b)).
       * eapply fn_B. exact Bb.
       * apply fn_A. exact Ab.
-      * intros k Hk E. cbn [pos] in E. subst k. apply Hp. right. exact Hk.
-  - (* SArrowStmt *) intros p pb b IHb Hn. cbn [keys] in Hn.
+      * intros k Hk E. cbn [pos] in E. subst k. apply Hp. right. exact Hk. }
+    { intros Hn x. cbn [keys] in Hn. apply NoDup_cons_inv in Hn. destruct Hn as [Hp Hn]. apply NoDup_cons_inv in Hn. destruct Hn as [Hpb Hn].
+      destruct (IHb Hn) as [_ Bb]. change (anG fx (SFnDecl p n pb b) x) with (wrap (SFnDecl p n pb b) (fn_likeG fx p pb (anG_list fx b)) x).
+      unfold wrap. rewrite g_lg_gcons. cbn [hoist_s]. intros k fl [E | Hin].
+      - injection E as <- _ _. cbn [pos]. intros Hr. apply Hp. right. apply (proj1 reach_keys_l). exact Hr.
+      - exact (fn_H p pb _ _ _ Bb _ k fl Hin). }
+  - (* SArrowStmt *) intros p pb b [IHb HIHb]. split.
+    { intros Hn. cbn [keys] in Hn.
     apply NoDup_cons_inv in Hn. destruct Hn as [Hp Hn]. apply NoDup_cons_inv in Hn. destruct Hn as [Hpb Hn].
     destruct (IHb Hn) as [Ab Bb].
     split.
@@ -1684,8 +1720,10 @@ Proof.
       eapply (wrap_B _ (fun x => let '(y, r, lg) := fn_likeG fx p pb (anG_list fx b) x in (visit_lit y, r, lg)) (keys_l b)).
       * eapply arrow_B. exact Bb.
       * apply arrow_A. exact Ab.
-      * intros k Hk E. cbn [pos] in E. subst k. apply Hp. right. exact Hk.
-  - (* SGetterStmt *) intros p gp pb b IHb Hn. cbn [keys] in Hn.
+      * intros k Hk E. cbn [pos] in E. subst k. apply Hp. right. exact Hk. }
+    { apply hoistS_nil. reflexivity. }
+  - (* SGetterStmt *) intros p gp pb b [IHb HIHb]. split.
+    { intros Hn. cbn [keys] in Hn.
     apply NoDup_cons_inv in Hn. destruct Hn as [Hp Hn]. apply NoDup_cons_inv in Hn. destruct Hn as [Hgp Hn].
     apply NoDup_cons_inv in Hn. destruct Hn as [Hpb Hn].
     destruct (IHb Hn) as [Ab Bb].
@@ -1697,23 +1735,33 @@ Proof.
     + intros ls. eapply okB_ext; [intros x; reflexivity|]. eapply (wrap_B _ (fn_exprG fx gp pb (anG_list fx b)) (keys_l b)).
       * eapply fn_expr_B. exact Bb.
       * apply fn_expr_A. exact Ab.
-      * intros k Hk E. cbn [pos] in E. subst k. apply Hp. right. right. exact Hk.
-  - (* SRet *) intros p a Hn.
+      * intros k Hk E. cbn [pos] in E. subst k. apply Hp. right. right. exact Hk. }
+    { apply hoistS_nil. reflexivity. }
+  - (* SRet *) intros p a. split.
+    { intros Hn. 
     assert (HA : okA (fun x => let '(y, r) := visit_returnG p a x in (y, r, @nil gent)) []).
     { intros x. unfold visit_returnG. cbn [g_st g_lg fst snd]. dsplit; [|apply cases_ok_nil | apply lkeys_in_nil].
       eapply mono_trans; [|apply mono_mark]. destruct a; [apply mono_visit_e | apply mono_refl]. }
-    leaf_case (fun x => let '(y, r) := visit_returnG p a x in (y, r, @nil gent)) (ret_B p a); exact HA.
-  - (* SThrow *) intros p e Hn.
+    leaf_case (fun x => let '(y, r) := visit_returnG p a x in (y, r, @nil gent)) (ret_B p a); exact HA. }
+    { apply hoistS_nil. reflexivity. }
+  - (* SThrow *) intros p e. split.
+    { intros Hn. 
     assert (HA : okA (fun x => let '(y, r) := visit_throwG fx p e x in (y, r, @nil gent)) []).
     { intros x. unfold visit_throwG. cbn [fixD fx repaired g_st g_lg fst snd]. dsplit; [|apply cases_ok_nil | apply lkeys_in_nil].
       eapply mono_trans; [apply mono_visit_e|]. eapply mono_trans; [apply mono_visit_lit | apply mono_mark]. }
-    leaf_case (fun x => let '(y, r) := visit_throwG fx p e x in (y, r, @nil gent)) (throw_B p e); exact HA.
-  - (* SBrk *) intros p l Hn.
-    leaf_case (fun x => (visit_break fx l x, @None End, @nil gent)) (brk_B l); apply leaf_A; intros x; apply mono_visit_break.
-  - (* SCont *) intros p l Hn.
+    leaf_case (fun x => let '(y, r) := visit_throwG fx p e x in (y, r, @nil gent)) (throw_B p e); exact HA. }
+    { apply hoistS_nil. reflexivity. }
+  - (* SBrk *) intros p l. split.
+    { intros Hn. 
+    leaf_case (fun x => (visit_break fx l x, @None End, @nil gent)) (brk_B l); apply leaf_A; intros x; apply mono_visit_break. }
+    { apply hoistS_nil. reflexivity. }
+  - (* SCont *) intros p l. split.
+    { intros Hn. 
     leaf_case (fun x => (set_fc x true, @None End, @nil gent)) (cont_B l); apply leaf_A; intros x;
-      (repeat split; intros H; try exact H; reflexivity).
-  - (* SBlock *) intros p b IHb Hn. cbn [keys] in Hn. apply NoDup_cons_inv in Hn. destruct Hn as [Hp Hn].
+      (repeat split; intros H; try exact H; reflexivity). }
+    { apply hoistS_nil. reflexivity. }
+  - (* SBlock *) intros p b [IHb HIHb]. split.
+    { intros Hn. cbn [keys] in Hn. apply NoDup_cons_inv in Hn. destruct Hn as [Hp Hn].
     destruct (IHb Hn) as [Ab Bb].
     split.
     + eapply okA_ext; [intros x; reflexivity|]. eapply (wrap_A _ (fun a => block_endG p (anG_list fx b a)) (keys_l b)).
@@ -1723,8 +1771,10 @@ Proof.
     + intros ls. eapply okB_ext; [intros x; reflexivity|]. eapply (wrap_B _ (fun a => block_endG p (anG_list fx b a)) (keys_l b)).
       * apply block_end_B. exact Bb.
       * apply block_end_A. exact Ab.
-      * intros k Hk E. cbn [pos] in E. subst k. apply Hp. exact Hk.
-  - (* SIf *) intros p c a IHa Hn. cbn [keys] in Hn. apply NoDup_cons_inv in Hn. destruct Hn as [Hp Hn].
+      * intros k Hk E. cbn [pos] in E. subst k. apply Hp. exact Hk. }
+    { apply hoistS_nil. reflexivity. }
+  - (* SIf *) intros p c a [IHa HIHa]. split.
+    { intros Hn. cbn [keys] in Hn. apply NoDup_cons_inv in Hn. destruct Hn as [Hp Hn].
     destruct (orb_inv a IHa Hn) as [Aa Ba].
     split.
     + eapply okA_ext; [intros x; reflexivity|]. eapply (wrap_A _ (visit_ifG fx p c (pos a) (fun y => orbG a (anG fx a y))) (keys a)).
@@ -1734,8 +1784,10 @@ Proof.
     + intros ls. eapply okB_ext; [intros x; reflexivity|]. eapply (wrap_B _ (visit_ifG fx p c (pos a) (fun y => orbG a (anG fx a y))) (keys a)).
       * apply if_B. apply Ba.
       * apply if_A. exact Aa.
-      * intros k Hk E. cbn [pos] in E. subst k. apply Hp. exact Hk.
-  - (* SIfElse *) intros p c a IHa b IHb Hn. cbn [keys] in Hn. apply NoDup_cons_inv in Hn. destruct Hn as [Hp Hn].
+      * intros k Hk E. cbn [pos] in E. subst k. apply Hp. exact Hk. }
+    { apply hoistS_nil. reflexivity. }
+  - (* SIfElse *) intros p c a [IHa HIHa] b [IHb HIHb]. split.
+    { intros Hn. cbn [keys] in Hn. apply NoDup_cons_inv in Hn. destruct Hn as [Hp Hn].
     apply NoDup_app_inv in Hn. destruct Hn as [Hna [Hnb Hdis]].
     destruct (orb_inv a IHa Hna) as [Aa Ba]. destruct (orb_inv b IHb Hnb) as [Ab Bb].
     split.
@@ -1750,8 +1802,10 @@ Proof.
         -- intros k Hk Hr. apply (Hdis k Hk). apply reach_keys. exact Hr.
         -- intros k Hk Hr. apply (Hdis k); [apply reach_keys; exact Hr | exact Hk].
       * apply if_else_A; assumption.
-      * intros k Hk E. cbn [pos] in E. subst k. apply Hp. exact Hk.
-  - (* SWhile *) intros p c b IHb Hn. cbn [keys] in Hn. apply NoDup_cons_inv in Hn. destruct Hn as [Hp Hn].
+      * intros k Hk E. cbn [pos] in E. subst k. apply Hp. exact Hk. }
+    { apply hoistS_nil. reflexivity. }
+  - (* SWhile *) intros p c b [IHb HIHb]. split.
+    { intros Hn. cbn [keys] in Hn. apply NoDup_cons_inv in Hn. destruct Hn as [Hp Hn].
     destruct (IHb Hn) as [Ab Bb].
     split.
     + eapply okA_ext; [intros x; reflexivity|]. eapply (wrap_A _ (visit_whileG fx c (pos b) (anG fx b)) (keys b)).
@@ -1761,8 +1815,10 @@ Proof.
     + intros ls. eapply okB_ext; [intros x; reflexivity|]. eapply (wrap_B _ (visit_whileG fx c (pos b) (anG fx b)) (keys b)).
       * apply while_B. apply Bb.
       * apply while_A. exact Ab.
-      * intros k Hk E. cbn [pos] in E. subst k. apply Hp. exact Hk.
-  - (* SDoWhile *) intros p b IHb c Hn. cbn [keys] in Hn. apply NoDup_cons_inv in Hn. destruct Hn as [Hp Hn].
+      * intros k Hk E. cbn [pos] in E. subst k. apply Hp. exact Hk. }
+    { apply hoistS_nil. reflexivity. }
+  - (* SDoWhile *) intros p b [IHb HIHb] c. split.
+    { intros Hn. cbn [keys] in Hn. apply NoDup_cons_inv in Hn. destruct Hn as [Hp Hn].
     destruct (IHb Hn) as [Ab Bb].
     split.
     + eapply okA_ext; [intros x; reflexivity|]. eapply (wrap_A _ (visit_do_whileG fx p c (pos b) (anG fx b)) (keys b)).
@@ -1772,8 +1828,10 @@ Proof.
     + intros ls. eapply okB_ext; [intros x; reflexivity|]. eapply (wrap_B _ (visit_do_whileG fx p c (pos b) (anG fx b)) (keys b)).
       * apply dowhile_B. apply Bb.
       * apply dowhile_A. exact Ab.
-      * intros k Hk E. cbn [pos] in E. subst k. apply Hp. exact Hk.
-  - (* SFor *) intros p c b IHb Hn. cbn [keys] in Hn. apply NoDup_cons_inv in Hn. destruct Hn as [Hp Hn].
+      * intros k Hk E. cbn [pos] in E. subst k. apply Hp. exact Hk. }
+    { apply hoistS_nil. reflexivity. }
+  - (* SFor *) intros p c b [IHb HIHb]. split.
+    { intros Hn. cbn [keys] in Hn. apply NoDup_cons_inv in Hn. destruct Hn as [Hp Hn].
     destruct (IHb Hn) as [Ab Bb].
     split.
     + eapply okA_ext; [intros x; reflexivity|]. eapply (wrap_A _ (visit_forG fx p c (pos b) (anG fx b)) (keys b)).
@@ -1782,8 +1840,10 @@ Proof.
       * left. reflexivity.
     + intros ls. eapply okB_ext; [intros x; reflexivity|].
       assert (HB := wrap_B (SFor p c b) (visit_forG fx p c (pos b) (anG fx b)) (keys b) _ _ (for_B p c (pos b) (anG fx b) _ _ ls (Bb [])) (for_A p c (pos b) _ _ Ab)).
-      destruct c as [c|]; apply HB; intros k Hk E; cbn [pos] in E; subst k; apply Hp; exact Hk.
-  - (* SForIn *) intros p b IHb Hn. cbn [keys] in Hn. apply NoDup_cons_inv in Hn. destruct Hn as [Hp Hn].
+      destruct c as [c|]; apply HB; intros k Hk E; cbn [pos] in E; subst k; apply Hp; exact Hk. }
+    { apply hoistS_nil. reflexivity. }
+  - (* SForIn *) intros p b [IHb HIHb]. split.
+    { intros Hn. cbn [keys] in Hn. apply NoDup_cons_inv in Hn. destruct Hn as [Hp Hn].
     destruct (IHb Hn) as [Ab Bb].
     split.
     + eapply okA_ext; [intros x; reflexivity|]. eapply (wrap_A _ (visit_for_inG fx (pos b) (anG fx b)) (keys b)).
@@ -1793,8 +1853,10 @@ Proof.
     + intros ls. eapply okB_ext; [intros x; reflexivity|]. eapply (wrap_B _ (visit_for_inG fx (pos b) (anG fx b)) (keys b)).
       * apply for_in_B. apply Bb.
       * apply for_in_A. exact Ab.
-      * intros k Hk E. cbn [pos] in E. subst k. apply Hp. exact Hk.
-  - (* SForOf *) intros p b IHb Hn. cbn [keys] in Hn. apply NoDup_cons_inv in Hn. destruct Hn as [Hp Hn].
+      * intros k Hk E. cbn [pos] in E. subst k. apply Hp. exact Hk. }
+    { apply hoistS_nil. reflexivity. }
+  - (* SForOf *) intros p b [IHb HIHb]. split.
+    { intros Hn. cbn [keys] in Hn. apply NoDup_cons_inv in Hn. destruct Hn as [Hp Hn].
     destruct (IHb Hn) as [Ab Bb].
     split.
     + eapply okA_ext; [intros x; reflexivity|]. eapply (wrap_A _ (visit_for_inG fx (pos b) (anG fx b)) (keys b)).
@@ -1804,8 +1866,10 @@ Proof.
     + intros ls. eapply okB_ext; [intros x; reflexivity|]. eapply (wrap_B _ (visit_for_inG fx (pos b) (anG fx b)) (keys b)).
       * apply for_in_B. apply Bb.
       * apply for_in_A. exact Ab.
-      * intros k Hk E. cbn [pos] in E. subst k. apply Hp. exact Hk.
-  - (* SForHead *) intros p g fp pb hb IHh b IHb Hn. cbn [keys] in Hn. apply NoDup_cons_inv in Hn. destruct Hn as [Hp Hn].
+      * intros k Hk E. cbn [pos] in E. subst k. apply Hp. exact Hk. }
+    { apply hoistS_nil. reflexivity. }
+  - (* SForHead *) intros p g fp pb hb [IHh HIHh] b [IHb HIHb]. split.
+    { intros Hn. cbn [keys] in Hn. apply NoDup_cons_inv in Hn. destruct Hn as [Hp Hn].
     apply NoDup_app_inv in Hn. destruct Hn as [Hnh [Hnb Hdis]].
     apply NoDup_cons_inv in Hnh. destruct Hnh as [_ Hnh]. apply NoDup_cons_inv in Hnh. destruct Hnh as [_ Hnh].
     destruct (IHh Hnh) as [Ah Bh]. destruct (IHb Hnb) as [Ab Bb].
@@ -1824,8 +1888,10 @@ Proof.
         -- intros k Hk Hr. apply (Hdis k); [right; right; exact Hk | apply reach_keys; exact Hr].
         -- intros k Hk Hr. apply (Hdis k); [right; right; apply (proj1 reach_keys_l); exact Hr | exact Hk].
       * exact HA.
-      * intros k Hk E. cbn [pos] in E. subst k. apply Hp. apply Hsub. exact Hk.
-  - (* SSwitch *) intros p cs IHc Hn. cbn [keys] in Hn. apply NoDup_cons_inv in Hn. destruct Hn as [Hp Hn].
+      * intros k Hk E. cbn [pos] in E. subst k. apply Hp. apply Hsub. exact Hk. }
+    { apply hoistS_nil. reflexivity. }
+  - (* SSwitch *) intros p cs IHc. split.
+    { intros Hn. cbn [keys] in Hn. apply NoDup_cons_inv in Hn. destruct Hn as [Hp Hn].
     destruct (IHc Hn) as [Ac Bc].
     split.
     + eapply okA_ext; [intros x; reflexivity|]. eapply (wrap_A _ (visit_switchG p cs (anG_cases fx cs)) (keys_c cs)).
@@ -1835,8 +1901,10 @@ Proof.
     + intros ls. eapply okB_ext; [intros x; reflexivity|]. eapply (wrap_B _ (visit_switchG p cs (anG_cases fx cs)) (keys_c cs)).
       * apply switch_B; [exact Bc | apply tests_mt].
       * apply switch_A. exact Ac.
-      * intros k Hk E. cbn [pos] in E. subst k. apply Hp. exact Hk.
-  - (* SLabel *) intros p l b IHb Hn. cbn [keys] in Hn. apply NoDup_cons_inv in Hn. destruct Hn as [Hp Hn].
+      * intros k Hk E. cbn [pos] in E. subst k. apply Hp. exact Hk. }
+    { apply hoistS_nil. reflexivity. }
+  - (* SLabel *) intros p l b [IHb HIHb]. split.
+    { intros Hn. cbn [keys] in Hn. apply NoDup_cons_inv in Hn. destruct Hn as [Hp Hn].
     destruct (orb_inv b IHb Hn) as [Ab Bb].
     split.
     + eapply okA_ext; [intros x; reflexivity|].
@@ -1848,20 +1916,40 @@ Proof.
       eapply (wrap_B _ (fun x => let '(y, _, lg) := with_childG fx (KLabel l) p (fun a => orbG b (anG fx b a)) x in (y, None, lg)) (keys b)).
       * apply (label_B l p _ (csem b (l :: ls)) (reach b)). apply Bb.
       * apply label_A. exact Ab.
-      * intros k Hk E. cbn [pos] in E. subst k. apply Hp. exact Hk.
-  - (* STry *) intros p bp blk IHb h hb IHh f fb IHf. apply try_inv; [exact IHb | intros _; exact IHh | intros _; exact IHf].
-  - (* SNil *) intros _. split; [exact nil_A | exact nil_B].
-  - (* SCons *) intros s IHs r IHr Hn. cbn [keys_l] in Hn. apply NoDup_app_inv in Hn. destruct Hn as [Hns [Hnr Hdis]].
-    destruct (orb_inv s IHs Hns) as [As Bs]. destruct (IHr Hnr) as [Ar Br].
-    split.
-    + eapply okAl_ext; [|apply (cons_A s (fun a => orbG s (anG fx s a)) (anG_list fx r) _ _ As Ar)].
-      intros x. cbn [anG_list]. unfold consG. reflexivity.
-    + eapply okBl_ext; [|apply (cons_B s (fun a => orbG s (anG fx s a)) (anG_list fx r) _ _ _ _ _ _ (Bs []) Br As Ar)].
-      * intros x. cbn [anG_list]. unfold consG. reflexivity.
-      * intros k Hk Hr. apply (Hdis k Hk). apply reach_keys. exact Hr.
-      * intros k Hk Hr. apply (Hdis k); [apply reach_keys; exact Hr | exact Hk].
+      * intros k Hk E. cbn [pos] in E. subst k. apply Hp. exact Hk. }
+    { apply hoistS_nil. reflexivity. }
+  - (* STry *) intros p bp blk [IHb HIHb] h hb [IHh HIHh] f fb [IHf HIHf]. split.
+    { apply try_inv; [exact IHb | intros _; exact IHh | intros _; exact IHf]. }
+    { apply hoistS_nil. reflexivity. }
+  - (* SNil *) split.
+    { intros _. split; [exact nil_A | exact nil_B]. }
+    { intros _ y. apply flags_ok_nil. }
+  - (* SCons *) intros s [IHs HIHs] r [IHr HIHr]. split.
+    { intros Hn. cbn [keys_l] in Hn. apply NoDup_app_inv in Hn. destruct Hn as [Hns [Hnr Hdis]].
+      destruct (orb_inv s IHs Hns) as [As Bs]. destruct (IHr Hnr) as [Ar Br].
+      split.
+      + eapply okAl_ext; [|apply (cons_A s (fun a => orbG s (anG fx s a)) (anG_list fx r) _ _ As Ar)].
+        intros x. cbn [anG_list]. unfold consG. reflexivity.
+      + eapply okBl_ext; [|apply (cons_B s (fun a => orbG s (anG fx s a)) (anG_list fx r) _ _ _ _ (hoist_l r) _ _ (Bs []) Br As Ar (HIHr Hnr))].
+        * intros x. cbn [anG_list]. unfold consG. reflexivity.
+        * intros k Hk Hr. apply (Hdis k Hk). apply reach_keys. exact Hr.
+        * intros k Hk Hr. apply (Hdis k); [apply reach_keys; exact Hr | exact Hk].
+        * intros k Hk Hr. apply (Hdis k Hk). apply reach_keys. apply hoist_in_reach. exact Hr. }
+    { intros Hn y. cbn [keys_l] in Hn. apply NoDup_app_inv in Hn. destruct Hn as [Hns [Hnr Hdis]].
+      destruct (orb_inv s IHs Hns) as [As _]. destruct (IHr Hnr) as [Ar _].
+      rewrite hoist_l_cons. change (anG_list fx (SCons s r) y) with (consG s (fun a => orbG s (anG fx s a)) (anG_list fx r) y).
+      unfold consG. destruct (As y) as [_ [_ Hk1]]. pose proof (HIHs Hns y) as Hh1.
+      assert (El : g_lg (orbG s (anG fx s y)) = g_lg (anG fx s y)) by (unfold orbG; destruct (anG fx s y) as [[y0 r0] lg0]; destruct (is_brk_or_cont s); reflexivity).
+      rewrite <- El in Hh1. destruct (orbG s (anG fx s y)) as [[y1 r1] lg1]. cbn [g_lg snd] in Hk1, Hh1.
+      destruct (Ar y1) as [_ [_ Hk2]]. pose proof (HIHr Hnr y1) as Hh2. destruct (anG_list fx r y1) as [[y2 tops] lg2]. cbn [l_lg snd] in *.
+      apply flags_ok_app_l; apply flags_ok_app_r.
+      - exact Hh1.
+      - eapply flags_ok_disjoint; [exact Hk1|]. intros k Hk Hr. apply (Hdis k Hk). apply reach_keys. apply hoist_in_reach. exact Hr.
+      - eapply flags_ok_disjoint; [exact Hk2|]. intros k Hk Hr. apply (Hdis k); [|exact Hk].
+        destruct s; cbn [hoist_s] in Hr; try (destruct Hr). cbn [keys]. right. right. apply (proj1 reach_keys_l). exact Hr.
+      - exact Hh2. }
   - (* CNil *) intros _. split; [exact nilC_A | exact nilC_B].
-  - (* CCons *) intros cp d ft b IHb r IHr Hn. cbn [keys_c] in Hn. apply NoDup_cons_inv in Hn. destruct Hn as [Hp Hn].
+  - (* CCons *) intros cp d ft b [IHb HIHb] r IHr Hn. cbn [keys_c] in Hn. apply NoDup_cons_inv in Hn. destruct Hn as [Hp Hn].
     apply NoDup_app_inv in Hn. destruct Hn as [Hnb [Hnr Hdis]].
     destruct (IHb Hnb) as [Ab Bb]. destruct (IHr Hnr) as [Ar Br].
     split.
@@ -1875,6 +1963,9 @@ Proof.
       * intros k Hk Hr. apply (Hdis k); [apply reach_keys; exact Hr | exact Hk].
       * apply end_visit_test.
 Qed.
+
+Theorem anG_inv : (forall s, inv_s s) /\ (forall l, inv_l l) /\ (forall cs, inv_c cs).
+Proof. destruct anG_inv' as [HS [HL HC]]. split; [intros s; apply HS | split; [intros l; apply HL | exact HC]]. Qed.
 
 (* ------------------------------------------------------------------ *)
 (* program level, for the ghost analyzer with all repairs on *)
